@@ -13,6 +13,14 @@ pub mod c08;
 #[cfg(kani)]
 pub mod c17;
 #[cfg(kani)]
+pub mod c05;
+#[cfg(kani)]
+pub mod c18;
+#[cfg(kani)]
+pub mod c15;
+#[cfg(kani)]
+pub mod c16;
+#[cfg(kani)]
 pub mod c13;
 #[cfg(kani)]
 pub mod c01;
